@@ -211,6 +211,16 @@ func Guard(f func()) (panicked bool, val interface{}, stack string) {
 	return
 }
 
+// resultJSON marshals the result while holding the lock (the result shares
+// the live maps).
+func (c *Ctx) resultJSON(done bool) []byte {
+	r := c.result(done)
+	c.mu.Lock()
+	defer c.mu.Unlock()
+	b, _ := json.Marshal(r)
+	return b
+}
+
 func (c *Ctx) result(done bool) *Result {
 	c.mu.Lock()
 	defer c.mu.Unlock()
@@ -283,4 +293,15 @@ func ErrString(err error) string {
 		return ""
 	}
 	return err.Error()
+}
+
+// FindingCount returns the number of reports made so far by this worker.
+func (c *Ctx) FindingCount() int {
+	c.mu.Lock()
+	defer c.mu.Unlock()
+	n := 0
+	for _, f := range c.findings {
+		n += int(f.Count)
+	}
+	return n
 }
